@@ -6,6 +6,8 @@ rows = []
 for mp in sorted(glob.glob(os.path.join(HERE, 'seeded', '*', 'meta.json'))):
     m = json.load(open(mp))
     ck = '; '.join('%s: %s' % (c, 'caught (%d)' % v['violations'] if v['exit'] == 1 and v['violations'] else 'MISSED' if v['exit'] == 0 else 'exit %d' % v['exit']) for c, v in sorted(m.get('checks', {}).items()))
+    if m.get('neutralised_on_current_repo'):
+        ck = 'NEUTRALISED by a later repair of /repo: the change no longer alters behaviour (its demo passes with the patch applied); kept for the record. ' + ck
     rows.append('| %s | %s | %s | %s | %s | %s |' % (m['seed'], m['breaks_property'], m.get('change', '').replace('|', '/'), m.get('needs_to_manifest', '').replace('|', '/'),
                                                    'yes' if m.get('demo', {}).get('exit_unchanged') == 0 and m.get('demo', {}).get('exit_changed') else 'NO', ck))
 out = ['# Seeded regressions (written by independent sub-agents, validated by selftest/try_seed.py)', '',
